@@ -511,9 +511,19 @@ async fn slow_subscriber(ctx: &mut Ctx, case: u64, rng: &mut Rng) {
         return;
     }
     let seen_slow: Arc<Mutex<Vec<Ev>>> = Default::default();
+    // Now and then the slow consumer does not take anything out for seconds before it starts (added
+    // after seeded change agent-C12-10: a subscriber that is slow — however slow — is still a current
+    // subscriber; giving up on it after some time loses its events). The actor then waits that long
+    // inside the delivery of one event.
+    let stall = if rng.chance(1, if ctx.is_quick() { 100 } else { 25 }) { Duration::from_millis(5500) } else { Duration::ZERO };
+    if !stall.is_zero() {
+        ctx.count("slow_subscriber_cases_with_a_stall_of_seconds", 1);
+        trace.push(format!("the slow subscriber takes nothing out for the first {stall:?}"));
+    }
     let drainer = {
         let seen = seen_slow.clone();
         tokio::spawn(async move {
+            tokio::time::sleep(stall).await;
             loop {
                 tokio::time::sleep(delay).await;
                 match slow_rx.recv().await {
